@@ -29,17 +29,28 @@ SPEC = dict(
              'fix F17; body inline vs reference) are additionally re-translated from tlb/transaction.py on every run (Generated/MsgLayout.lean) and '
              'proved, for ALL integer budgets and sizes, to be the model\'s conditions (c15_src_layout_tests); initB / bodyB of the hand model are '
              'proved to branch by exactly these regenerated decisions (c15_src_model_layout). '
-             'The WHOLE deserialize methods of MessageAny, CommonMsgInfo, InternalMsgInfo, ExternalMsgInfo, ExternalOutMsgInfo, StateInit, TickTock, '
+             'The WHOLE serialize AND deserialize methods of MessageAny, CommonMsgInfo, InternalMsgInfo, ExternalMsgInfo, ExternalOutMsgInfo, StateInit, TickTock, '
              'CurrencyCollection, ExtraCurrencyCollection are regenerated from transaction.py / account.py / block.py on every run (Generated/MsgSrc.lean, '
-             'translator pytlb.py) and proved for ALL slices to BE the hand model\'s parsers (c15_src_deserialize), so c15_own_parser / c15_round_trip speak '
-             'about the regenerated parser (c15_src_roundtrip_partial); the serialize methods are regenerated and validated too, proved equal for the '
-             'leaf classes (c15_src_serialize_partial); the composite serialisers remain hand model + correspondence + the layout decision lines.',
-        level_note='theorems are about the hand model; model = pytoniq-core only on the generated inputs (sampled). Dictionaries '
+             'translator pytlb.py) and proved for ALL inputs to BE the hand model: the parsers on every slice (c15_src_deserialize), the serialisers for every '
+             'message / state-init / currency value / header under Lawful + Total (c15_src_serialize: the code calls end_cell() on every piece, the model appends '
+             'its bits and refs; bridged by the builder size invariant SrcMsgSer.Safe + sub_bridge). Hence c15_src_never_overflows (the regenerated '
+             'MessageAny.serialize returns under the tight bound; mBig shows tightness on the regenerated code), c15_src_roundtrip (regenerated serialize then '
+             'regenerated deserialize = identity on the property\'s domain), c15_src_layout_connected (the whole method branches by the regenerated decision lines), '
+             'c15_src_header_roundtrip / c15_src_address_roundtrip (C06 level: every encodable header / address goes through the regenerated writer and reader '
+             'unchanged, nothing left unread). '
+             'The wrappers of tlb/custom/wallet.py and tlb/custom/nft.py (WalletV3Data, WalletV4Data, HighloadWalletData, WalletMessage, NftItemData, '
+             'NftItemSaleFees, NftItemSaleData) are regenerated too (Generated/WrapSrc.lean, wrapsrc.py): constructors (wallet_id None -> 698983191, any int kept, '
+             '0 included; public_key None raises: c15_src_wrapper_defaults), serialize and deserialize = Model/Wrappers.lean for all inputs (c15_src_wrappers), '
+             'constructor -> serialize -> deserialize round trips on the regenerated code (c15_src_wallet_v3_roundtrip, c15_src_highload_roundtrip with old '
+             'queries, c15_src_wallet_message_roundtrip). HashUpdate (tlb/utils.py) remains hand model + correspondence.',
+        level_note='the hand models of the message classes and of the custom wrappers are proved equal to definitions regenerated from the source on every run '
+                   '(trusted: the translator pytlb.py / wrapsrc.py / msgsrc.py with its declared interface -- Builder / Slice methods = BOp / SOp of Model/Builder.lean, '
+                   'value domains, opaque HashMap calls -- validated against CPython on every change); HashUpdate, Builder / Slice, HashMap, Cell stay hand model + sampled correspondence. Dictionaries '
                    '(extra currencies, library, plugins, old_queries) are optional root references (dictionary contents are C09/C10). '
                    'bits256 fields must be 32 bytes: the library does not check the length (a shorter key serialises to a cell that is '
                    'not a valid value; shown as an example, outside the property). The dictionary a HighloadWalletData cell holds is compared '
                    'semantically (HashMap.parse for the structure, the spec decoder per value), its root cell being opaque to the theorems.',
-        technique='Lean 4 proof (hand model) + differential correspondence with the library + source-regenerated layout decisions'),
+        technique='Lean 4 proof; message classes and custom wrappers regenerated from the source (whole methods) and proved equal to the hand model; differential correspondence with the library for the rest'),
     translators=[('transaction.py MessageAny.serialize inline/reference decisions->Generated/MsgLayout.lean', arith2.regenerator('MsgLayout')),
                  ('transaction.py / account.py / block.py whole message serialize / deserialize methods->Generated/MsgSrc.lean', msgsrc.regenerate),
                  ('custom/wallet.py / custom/nft.py constructors + whole serialize / deserialize methods->Generated/WrapSrc.lean', wrapsrc.regenerate)],
@@ -62,6 +73,8 @@ SPEC = dict(
                   'harness/gen/msgs.py, harness/gen/wrappers.py: second transcription of the schemas (oracle), canonical strings, library '
                   'object construction',
                   'dictionaries are serialised/parsed by the library HashMap (C09/C10) and treated as opaque root cells',
+                  'harness/translate/pytlb.py + msgsrc.py + wrapsrc.py (whole serialize / deserialize methods and constructors -> Lean; declared interface in '
+                  'design/translators-tlb.md), lean/TonVerif/PyTlb.lean',
                   'harness/translate/pyarith.py + arith.py/arith2.py (Python statements -> Lean) for the c15_src_* theorems; builder.available_bits / '
                   'available_refs are read as integer inputs (their definitions 1023 - used_bits, 4 - len(refs) are instantiated in c15_src_model_layout)'],
     assumptions=['correspondence is sampled differential testing', 'referenced cells (code/data/library/body/dict root/content) are ordinary cells',
